@@ -154,6 +154,23 @@ fn uper(api: &Api, input: &str, out: &mut Out) {
             }
         }
         let devname = c.get("dev").and_then(|d| d.as_str()).unwrap_or("");
+        if !devname.is_empty() && c.get("devbits").and_then(|b| b.as_array()).map(|b| !b.is_empty()).unwrap_or(false) {
+            // the deviation of this finding is predicted exactly (Impl(Dev)): the writer's bits are the predicted ones, and nothing
+            // but the two comparisons with the X.691 bits may differ
+            let (db, dl) = image(&c["devbits"]);
+            let exact = written.as_ref().map(|(b, l)| *l == dl && *b == db).unwrap_or(false);
+            let other: Vec<String> = problems.iter().filter(|(cl, _)| cl != "bits" && cl != "read-reference").map(|(cl, t)| format!("{}: {}", cl, t)).collect();
+            if exact && other.is_empty() {
+                bump(&format!("dev:{}", devname));
+            } else {
+                bump("bad:dev-mismatch");
+                out.line(&json!({"line": i, "class": "dev-mismatch", "case": c,
+                    "why": format!("inside the class of the open finding {} the implementation no longer does what the finding describes: {}", devname,
+                        if !exact { "the writer's bits are not the predicted ones".to_string() } else { other.join("; ") }),
+                    "got_bits": written.as_ref().map(|(b, l)| json!({"len": l, "hex": hex(b)})).unwrap_or(Value::Null)}));
+            }
+            continue;
+        }
         if !devname.is_empty() {
             // input class of a listed open finding: a deviation here is that finding (counted), agreement is fine too
             if !problems.is_empty() {
